@@ -217,7 +217,7 @@ func opRanges(fails *[]string, n, m int) string {
 func opFrDec(fails *[]string, kind string, data []byte) string {
 	orig := append([]byte(nil), data...)
 	dec := func(buf []byte) (fr.Element, bool) {
-		var e fr.Element
+		e := fr.MinusOne() // a reused receiver: every limb non-zero beforehand
 		switch kind {
 		case "be":
 			e.SetBytes(buf)
@@ -529,7 +529,7 @@ func elemOut(p *banderwagon.Element) string {
 
 func opPtDec(fails *[]string, data []byte) string {
 	orig := append([]byte(nil), data...)
-	var p banderwagon.Element
+	p := genMultiple(3) // a reused receiver
 	err := p.SetBytes(data)
 	assertf(fails, bytes.Equal(orig, data), "SetBytes modified its input")
 	if len(data) == 32 {
@@ -565,7 +565,7 @@ func orderDividesR(p *banderwagon.Element) bool {
 
 func opPtDecUnc(fails *[]string, data []byte, trusted bool) string {
 	orig := append([]byte(nil), data...)
-	var p banderwagon.Element
+	p := genMultiple(3) // a reused receiver
 	err := p.SetBytesUncompressed(data, trusted)
 	assertf(fails, bytes.Equal(orig, data), "SetBytesUncompressed modified its input")
 	if err != nil {
@@ -615,6 +615,19 @@ func opFromX(fails *[]string, x fp.Element, largest bool) string {
 	assertf(fails, p.X == keep, "GetPointFromX changed the x coordinate")
 	assertf(fails, p.IsOnCurve(), "GetPointFromX result not on curve")
 	assertf(fails, p.Y.LexicographicallyLargest() == largest || p.Y.IsZero(), "GetPointFromX chose the wrong root")
+	// the other request, then the same request again: history must not matter
+	x2 := keep
+	o := bandersnatch.GetPointFromX(&x2, !largest)
+	x3 := keep
+	again := bandersnatch.GetPointFromX(&x3, largest)
+	if o == nil || again == nil {
+		assertf(fails, false, "GetPointFromX: nil for one sign request but not the other / on repetition")
+	} else {
+		var neg fp.Element
+		neg.Neg(&p.Y)
+		assertf(fails, o.Y == neg, "GetPointFromX(!largest) is not the negated root")
+		assertf(fails, again.Y == p.Y, "GetPointFromX not reproducible after a call with the other sign request")
+	}
 	return fpHex(&p.Y)
 }
 
